@@ -43,5 +43,7 @@ let do_connp_oracle f =
   let cs = List.nth f 1 and os = List.nth f 2 and out = List.nth f 3 in
   let calls = co_calls os out in
   let hard = nat_of_int (cp_kv cs "hard" 18000) and maxtx = nat_of_int (cp_kv cs "maxtx" 512) in
-  Printf.sprintf "C05=%d C09=%d C10=%d C16=%d" (b2i (chk_C05 calls)) (b2i (chk_C09 calls)) (b2i (chk_C10 hard maxtx calls)) (b2i (chk_C16 calls))
+  let rej = String.concat ";" (List.map (fun (i, (h, s)) -> Printf.sprintf "%d:%d:%d:%d:%d" (int_of_nat i) (int_of_nat h) (int_of_nat s.lc_rq) (int_of_nat s.lc_rs) (b2i s.lc_fin)) (c05_rejects calls)) in
+  Printf.sprintf "C05=%d C09=%d C10=%d C16=%d rej=%s" (b2i (chk_C05 calls)) (b2i (chk_C09 calls)) (b2i (chk_C10 hard maxtx calls)) (b2i (chk_C16 calls))
+    (if rej = "" then "-" else rej)
 let () = register "connp_oracle" do_connp_oracle
